@@ -493,12 +493,12 @@ def resolveTypedefF (env : Env) (fuel : Nat) (root : Mod) (scope : List Stmt) (t
 def isExt (s : Stmt) : Bool := s.kw.contains ':'
 
 mutual
-/-- Number of `type` statements below (and including) a statement. -/
-def countTypes : Stmt → Nat
-  | .mk kw _ _ _ _ _ subs => (if kw == "type" then 1 else 0) + countTypesL subs
-def countTypesL : List Stmt → Nat
-  | [] => 0
-  | s :: rest => countTypes s + countTypesL rest
+/-- A statement and everything below it, in document order. -/
+def descendants : Stmt → List Stmt
+  | .mk kw ha a f l c subs => Stmt.mk kw ha a f l c subs :: descendantsL subs
+def descendantsL : List Stmt → List Stmt
+  | [] => []
+  | s :: rest => descendants s ++ descendantsL rest
 end
 
 mutual
@@ -514,6 +514,13 @@ def collectL (kws : List String) (up : List Stmt) : List Stmt → List (Stmt × 
   | s :: rest => collect kws up s ++ collectL kws up rest
 end
 
+/-- The identities of all `type` statements of a (sub)module. -/
+def typeKeysOf (m : Mod) : List TypeKey := ((descendants m.stmt).filter (·.kw == "type")).map (typeKey m)
+
+/-- The identities of all `type` statements of the loaded set: no chain of types in progress can be
+longer than this list (`Goyang.Lemmas.TypesFuel`). -/
+def allTypeKeys (reg : Registry) : List TypeKey := reg.mods.flatMap typeKeysOf
+
 /-- The environment of a loaded set: links and identity dictionary as `process` builds them
 (insertion-order oracle), fuel above every possible depth. -/
 def Env.of (reg : Registry) : Env :=
@@ -524,7 +531,7 @@ def Env.of (reg : Registry) : Env :=
   let dict := match Identity.buildDict o reg link with
     | some (d, _) => d
     | none => []
-  { reg := reg, link := link, dict := dict, fuel := (reg.mods.map fun m => countTypes m.stmt).sum + 2 }
+  { reg := reg, link := link, dict := dict, fuel := (allTypeKeys reg).length + 2 }
 
 /-- Did `process` link every include and import (otherwise it reports an error and what is linked
 depends on the iteration order: outside the type model)? -/
